@@ -7,10 +7,13 @@
     proofs: Attr/AttrProofs.v.  The hash table is abstracted to path
     resolution in the tree model; Attr/AttrHash.v models [keycmp] and the bucket
     chains and shows that the two agree for every hash function.
+    Attr/AttrChain.v models the clones as a LIST of dictionaries (own hash
+    table each, fallback pointer, owner_dict walking the whole chain) — the
+    tree model above keeps them as contexts over the original dictionary.
     The model follows the library with fixes 57..59 applied. *)
 From Coq Require Import NArith ZArith List Bool.
 From KdV Require Import Base.Wrap64 Attr.AttrBase Attr.AttrTree Attr.AttrSpec Attr.AttrProofs
-  Attr.AttrHash Attr.AttrHashProofs.
+  Attr.AttrHash Attr.AttrHashProofs Attr.AttrChain Attr.AttrChainProofs.
 Import ListNotations.
 Local Open Scope N_scope.
 
@@ -232,6 +235,106 @@ Theorem C13_overlay_stays : forall p f inst ov,
   keeps_key f -> keeps_kid_keys f -> overlay_ok ov -> overlay_ok (fst (update_at p f inst ov)).
 Proof. exact update_at_overlay_ok. Qed.
 Print Assumptions C13_overlay_stays.
+
+(** ---- the chain of dictionaries behind clones (Attr/AttrChain.v) ----
+    Each dictionary has its own hash table and a fallback pointer; an attribute
+    records both the table it is hashed in and the dictionary whose tree links
+    it.  [chain s i] is dictionary i followed by its fallbacks. *)
+Local Close Scope N_scope.
+
+(** lookup through ANY level, for EVERY hash function: the C lookup (bucket
+    walk with keycmp in each table, then the fallback) returns the attribute
+    with that path in the first dictionary of the chain that has one — the
+    dictionary semantics of the chain — and nothing else *)
+Theorem C13_chain_lookup : forall (hash : bytes -> N) (tmpl : cpath -> N),
+  (forall a b, tmpl a = tmpl b -> a = b) ->
+  forall s i dir key, no_leading_dot key ->
+  lookup_chain hash tmpl s i dir key =
+  match first_owner s (chain s i) (dir ++ split_on DOT key) with
+  | Some k => Some (k, dir ++ split_on DOT key)
+  | None => None
+  end.
+Proof. exact chain_lookup. Qed.
+Print Assumptions C13_chain_lookup.
+
+(** owner_dict (as repaired by 34936d6: walk the WHOLE chain) finds the
+    dictionary of the parent directory wherever it is on the chain *)
+Theorem C13_chain_owner : forall s i a,
+  In (a_table a) (chain s i) -> owner_dict s i a = a_table a.
+Proof. exact owner_dict_spec. Qed.
+Print Assumptions C13_chain_owner.
+
+(** creation through ANY level [i] below a directory reachable from it is
+    visible through EVERY level [i'] that resolves the parent directory to the
+    same attribute, and keeps the state well-formed (hashed where linked) *)
+Theorem C13_chain_create_visible : forall s i parent c i',
+  inv s -> In parent (attrs s) -> In (a_table parent) (chain s i) ->
+  first_owner s (chain s i') (a_path parent) = Some (a_table parent) ->
+  first_owner (create s i parent c) (chain (create s i parent c) i') (a_path parent ++ [c])
+  = Some (a_table parent).
+Proof. exact create_visible. Qed.
+Print Assumptions C13_chain_create_visible.
+
+Theorem C13_chain_create_wellformed : forall s i parent c,
+  inv s -> In parent (attrs s) -> In (a_table parent) (chain s i) -> inv (create s i parent c).
+Proof. exact create_inv. Qed.
+Print Assumptions C13_chain_create_wellformed.
+
+(** freeing ANY dictionary of a well-formed state (a leaf or one in the middle):
+    no remaining attribute is hashed in it, no attribute has its table entry in
+    a dead dictionary, the state stays well-formed *)
+Theorem C13_chain_free_safe : forall s k,
+  inv s ->
+  (forall a, In a (attrs (free_dict s k)) -> a_table a <> k) /\
+  (forall a, ~ dangling (free_dict s k) a) /\
+  inv (free_dict s k).
+Proof. exact free_safe. Qed.
+Print Assumptions C13_chain_free_safe.
+
+(** ... and well-formedness is what it takes: an attribute hashed in another
+    dictionary than the one linking it (what owner_dict did before 34936d6 for
+    chains longer than two) dangles once that dictionary is freed *)
+Theorem C13_chain_misplaced_dangles : forall s k a,
+  In a (attrs s) -> a_table a = k -> a_tree a <> k ->
+  (exists d, dict_at s k = Some d) -> dangling (free_dict s k) a.
+Proof. exact misplaced_dangles. Qed.
+Print Assumptions C13_chain_misplaced_dangles.
+
+(** cloning with KDUMP_CLONE_XLAT keeps the state well-formed; the statements
+    above are not vacuous: a chain of three dictionaries is well-formed *)
+Theorem C13_chain_clone_wellformed : forall s i priv,
+  inv s -> (forall p q c, In p priv -> p = q ++ [c] -> In q priv) -> inv (clone_xlat s i priv).
+Proof. exact clone_inv. Qed.
+Print Assumptions C13_chain_clone_wellformed.
+
+(** the operations that the correspondence check replays against the real hash
+    tables (engine attr-chain) keep every state well-formed: clones of both
+    kinds with reference counts, creation of a whole path through any level,
+    removal of a subtree, dropping references until dictionaries are freed —
+    and after any release nothing dangles.  [invb] is what the check evaluates
+    on every replayed state. *)
+Theorem C13_chain_ops_wellformed :
+  (forall s k, inv s -> inv (clone_shared s k)) /\
+  (forall s i priv, inv s -> (forall p q c, In p priv -> p = q ++ [c] -> In q priv) ->
+                    inv (clone_xlat_ref s i priv)) /\
+  (forall todo s i done, inv s -> inv (create_path s i done todo)) /\
+  (forall s i p strict, inv s -> inv (remove_below s i p strict)) /\
+  (forall fuel s k, inv s -> inv (release fuel s k)) /\
+  (forall fuel s k a, inv s -> ~ dangling (release fuel s k) a).
+Proof.
+  exact (conj clone_shared_inv (conj clone_xlat_ref_inv (conj create_path_inv
+        (conj remove_below_inv (conj release_inv release_no_dangling))))).
+Qed.
+Print Assumptions C13_chain_ops_wellformed.
+
+Theorem C13_chain_invb_sound : forall s, invb s = true -> inv s.
+Proof. exact invb_sound. Qed.
+Print Assumptions C13_chain_invb_sound.
+
+Theorem C13_chain_nonvacuous : inv s_chain3 /\ chain s_chain3 2 = [2; 1; 0]%nat.
+Proof. exact (conj s_chain3_inv chain3_walk). Qed.
+Print Assumptions C13_chain_nonvacuous.
+Local Open Scope N_scope.
 
 (** the association-list dictionary that the correspondence check replays is
     this dictionary: one checked set is [d_step], and the list the check starts
